@@ -96,7 +96,7 @@ def EXHAUSTIVE(tier):
 
 
 SLICES = {"quick": 2, "thorough": 8}
-PER_SHARD = {"quick": 130, "thorough": 1600}
+PER_SHARD = {"quick": 260, "thorough": 1600}
 
 
 def plan(tier, seed, avoid):
@@ -199,7 +199,7 @@ def rd_last(ctx):
     return None if not x else x[-1]
 
 
-_PCMEM = re.compile(r"\[pc, #(-?\d+)\]")
+_PCMEM = re.compile(r"\[pc(?:, #(-?\d+))?\]")
 _ADR_T = re.compile(r"^adr(?:\.w)?\s+\w+, #(-?\d+)")
 _ADR_A = re.compile(r"^(add|sub|adr)\s+\w+, (?:pc, )?#(-?\d+)")
 _X86MEM = re.compile(r"\[(-?(?:0x[0-9a-f]+|\d+))\]")
@@ -208,7 +208,7 @@ _M68PC = re.compile(r"\((-?\d+),%pc\)")
 
 def rd_arm_lit(ctx):
     m = _PCMEM.search(ctx.text)
-    return None if not m else ctx.I + 8 + int(m.group(1))
+    return None if not m else ctx.I + 8 + int(m.group(1) or 0)
 
 
 def rd_arm_adr(ctx):
@@ -221,7 +221,7 @@ def rd_arm_adr(ctx):
 
 def rd_thumb_lit(ctx):
     m = _PCMEM.search(ctx.text) or _ADR_T.match(ctx.text)
-    return None if not m else _al(ctx.I + 4, 4) + int(m.group(1))
+    return None if not m else _al(ctx.I + 4, 4) + int(m.group(1) or 0)
 
 
 def rd_x86_mem(ctx):
@@ -260,9 +260,14 @@ def rd_msp430_abs(ctx):
     else:
         return None
     k = (ctx.foff - 2) // 2
-    if k >= len(ext) or ext[k] >= len(ops):
+    if k >= len(ext):
         return None
-    m = _MSP_EXT.match(ops[ext[k]])
+    pos = ext[k]
+    if (w >> 12) >= 4 and len(ops) == 1:
+        pos -= 1        # emulated mnemonics (tst, inc, clr, ...) are printed without their constant-generator source
+    if not 0 <= pos < len(ops):
+        return None
+    m = _MSP_EXT.match(ops[pos])
     if not m:
         return None
     return int(m.group(1) if m.group(1) is not None else m.group(2)) & 0xFFFF
@@ -391,11 +396,11 @@ def _riscv_types():
         "b_imm12": Ty("pcrel", "refdis", rd_target, base=lambda I, F: I, lo=-4096, hi=4094, step=2),
         "b_imm20": Ty("pcrel", "refdis", rd_target, base=lambda I, F: I, lo=-(1 << 20), hi=(1 << 20) - 2, step=2),
         # %hi(S): upper 20 bits compensated for the sign of the lower 12 (RISC-V asm manual / psABI)
-        "abs32_imm20": Ty("part", "refdis", rd_last, part=lambda D, I, F: ((D + 0x800) >> 12) & 0xFFFFF, gstep=2),
-        "abs32_imm12": Ty("part", "refdis", rd_last, part=lambda D, I, F: sext(D, 12), gstep=2),
-        "rel_imm20": Ty("part", "refdis", rd_last, part=lambda D, I, F: ((D - F + 0x800) >> 12) & 0xFFFFF, gstep=2),
+        "abs32_imm20": Ty("part", "refdis", rd_last, part=lambda D, I, F: ((D + 0x800) >> 12) & 0xFFFFF),
+        "abs32_imm12": Ty("part", "refdis", rd_last, part=lambda D, I, F: sext(D, 12)),
+        "rel_imm20": Ty("part", "refdis", rd_last, part=lambda D, I, F: ((D - F + 0x800) >> 12) & 0xFFFFF),
         # ppci's %pcrel_lo names the symbol itself and assumes the auipc directly in front of it (F - 4)
-        "rel_imm12": Ty("part", "refdis", rd_last, part=lambda D, I, F: sext(D - (F - 4), 12), gstep=2),
+        "rel_imm12": Ty("part", "refdis", rd_last, part=lambda D, I, F: sext(D - (F - 4), 12)),
     })
     return t
 
@@ -633,7 +638,7 @@ class Carriers:
                     a = oprange.zeroed(cls, a, 0 if attempt % 3 else 4) if attempt % 2 == 0 else a
                     n = count_labels(cls, a)
                     if n == 0:
-                        break
+                        continue
                     a = relabel(cls, a, ["P%d" % i for i in range(n)])
                     inst = isaenum.build(isa, cls, a)
                     data, rels = emit_item(self.arch, inst)
@@ -1005,7 +1010,7 @@ def allowed(isa, typ, ty, S, A, I, F, avoid):
     """avoid switches of the open findings: is this (type, value) outside every switched-off construct?"""
     key = (isa, typ)
     if ty.kind == "part":
-        if F_ODD in avoid and S % 2:
+        if F_ODD in avoid and key in ODD_REJECTED and (S + A) % ODD_REJECTED[key]:
             return False
         return True
     v = ty.value(S, A, I, F)
@@ -1481,4 +1486,160 @@ def mon_pair(isa, byt, mon, key):
 # witness probes
 
 
-PROBES = {}
+
+def _mini(arch, code_hex, relocs, symbols, mems, extra=None, sections=()):
+    """link one tiny object: relocs [(type, offset, symbol name, addend)], symbols [(name, section|None, value)],
+    mems [(section name, location)] -> ("ok", linked object) | ("raised", exception)"""
+    spec = {"arch": arch, "sections": [{"name": "code", "alignment": 4, "address": 0, "data": code_hex}] +
+            [{"name": n, "alignment": 4, "address": 0, "data": d} for n, d in sections],
+            "symbols": [], "relocations": [], "images": [], "entry": None, "debug": None}
+    ids = {}
+    for i, (name, sec, val) in enumerate(symbols):
+        spec["symbols"].append({"id": i, "name": name, "binding": "global", "value": val, "section": sec,
+                                "typ": "func", "size": 0})
+        ids[name] = i
+    for typ, off, name, add in relocs:
+        spec["relocations"].append({"type": typ, "symbol_id": ids[name], "section": "code", "offset": off,
+                                    "addend": add})
+    lay = {"memories": [{"name": "m%d" % i, "location": loc, "size": 0x100000, "inputs": [["section", n]]}
+                        for i, (n, loc) in enumerate(mems)], "entry": None}
+    case = {"objects": [spec], "layout": lay, "extra_symbols": extra or {}, "partial": False}
+    return build_and_link(case)
+
+
+def _rv_target(out, off=0):
+    from vlib import rv32emu
+
+    sec = out.get_section("code")
+    return rv32emu.decode(bytes(sec.data[off:off + 4]), pc=sec.address + off).target
+
+
+def probe_addend():
+    # jal ra at 0x1000 -> lab (0x1020) with addend 4: S + A = 0x1024
+    st, out = _mini("riscv", "ef000000" + "13000000" * 15, [("b_imm20", 0, "lab", 4)], [("lab", "code", 0x20)],
+                    [("code", 0x1000)])
+    if st != "ok":
+        return "link raised %r" % (out,)
+    t = _rv_target(out)
+    return None if t == 0x1024 else "riscv b_imm20 with addend 4 to lab=0x1020 links to %#x, S + A = 0x1024" % t
+
+
+def probe_dual():
+    st, out = _mini("riscv", "ef000000", [("b_imm20", 0, "far", 0)], [("far", None, None)], [("code", 0x200000)],
+                    extra={"far": 0x300000})
+    if st != "ok":
+        return None
+    t = _rv_target(out)
+    return None if t == 0x300000 else "riscv jal at 0x200000 to 0x300000 (+1 MiB, not representable) links " \
+                                      "without error and jumps to %#x" % t
+
+
+def probe_nocheck():
+    st, out = _mini("x86_64", "eb00", [("jmp8", 1, "back", 0)], [("back", None, None)], [("code", 0x1000)],
+                    extra={"back": 0x1000 + 2 - 130})
+    if st != "ok":
+        return None
+    b = out.get_section("code").data[1]
+    t = 0x1002 + sext(b, 8)
+    return None if t == 0x1002 - 130 else "x86_64 jmp8 over -130 bytes links without error; the byte %#04x jumps " \
+                                          "to %#x instead of %#x" % (b, t, 0x1002 - 130)
+
+
+def probe_exc():
+    from ppci.common import CompilerError
+
+    st, out = _mini("riscv", "63000000", [("b_imm12", 0, "far", 0)], [("far", None, None)], [("code", 0x10000)],
+                    extra={"far": 0x10000 + 0x4000})
+    if st == "ok":
+        return "riscv beq over +16 KiB linked"
+    return None if isinstance(out, CompilerError) else "riscv beq over +16 KiB (unrepresentable) makes link raise " \
+                                                       "%s: %s" % (type(out).__name__, str(out)[:80])
+
+
+def probe_edge():
+    # thumb b (wrap_new11): largest forward offset 2046 -> target = P + 4 + 2046
+    st, out = _mini("arm:thumb", "00e0", [("wrap_new11", 0, "t", 0)], [("t", None, None)], [("code", 0x8000)],
+                    extra={"t": 0x8000 + 4 + 2046})
+    if st == "ok":
+        return None
+    return "thumb b to P+4+2046 (imm11 = 0x3ff, representable) makes link raise %s %s" % (
+        type(out).__name__, str(out)[:60])
+
+
+def probe_odd():
+    st, out = _mini("riscv", "b7020000", [("abs32_imm20", 0, "bytevar", 0)], [("bytevar", None, None)],
+                    [("code", 0x1000)], extra={"bytevar": 0x20001})
+    if st == "ok":
+        return None
+    return "riscv lui %%hi(bytevar) with bytevar = 0x20001 (odd data address) makes link raise %s" % type(out).__name__
+
+
+def _thumb_bl_target(data, P):
+    """ARM ARM A8.8.25 BL T1: S:I1:I2:imm10:imm11:0, I1 = NOT(J1 EOR S), I2 = NOT(J2 EOR S)"""
+    h1 = data[0] | (data[1] << 8)
+    h2 = data[2] | (data[3] << 8)
+    S, imm10 = (h1 >> 10) & 1, h1 & 0x3FF
+    J1, J2, imm11 = (h2 >> 13) & 1, (h2 >> 11) & 1, h2 & 0x7FF
+    I1, I2 = 1 - (J1 ^ S), 1 - (J2 ^ S)
+    v = (S << 24) | (I1 << 23) | (I2 << 22) | (imm10 << 12) | (imm11 << 1)
+    return P + 4 + sext(v, 25)
+
+
+def probe_thumbj():
+    P = 0x2000000
+    st, out = _mini("arm:thumb", "00f000f8", [("bl_imm11", 0, "t", 0)], [("t", None, None)], [("code", P)],
+                    extra={"t": P + 4 + 0x500000})
+    if st != "ok":
+        return "link raised %r" % (out,)
+    t = _thumb_bl_target(bytes(out.get_section("code").data[0:4]), P)
+    return None if t == P + 4 + 0x500000 else "thumb bl over +5 MiB (inside +-16 MiB) links to %#x instead of %#x" % (
+        t, P + 4 + 0x500000)
+
+
+def probe_mips():
+    st, out = _mini("mips", "0000000c", [("abs26", 0, "f", 0)], [("f", None, None)], [("code", 0x10000100)],
+                    extra={"f": 0x10000000})
+    if st == "ok":
+        w = int.from_bytes(out.get_section("code").data[0:4], "little")
+        t = ((0x10000104) & 0xF0000000) | ((w & 0x3FFFFFF) << 2)
+        return None if t == 0x10000000 else "mips jal links to %#x" % t
+    return "mips jal at 0x10000100 to 0x10000000 (same 256 MiB region) makes link raise %s: %s" % (
+        type(out).__name__, str(out)[:60])
+
+
+def probe_xtensa():
+    P = 0x4000
+    st, out = _mini("xtensa", "c10000", [("ri16", 0, "lit", 0)], [("lit", None, None)], [("code", P)],
+                    extra={"lit": P + 16})
+    if st != "ok":
+        return None
+    c = Ctx()
+    c.raw, c.I = bytes(out.get_section("code").data[0:3]), P
+    t = weak_xt_l32r(c)
+    return None if t == P + 16 else "xtensa l32r to a literal 16 bytes AHEAD (L32R only reaches backwards) links " \
+                                    "without error and loads from %#x" % t
+
+
+def probe_sse():
+    # cvtsi2ss xmm4, [lab]: f3 4c 0f 2a 24 25 <disp32>
+    from vlib import isaenum
+
+    arch = isaenum.get_arch("x86_64")
+    from ppci.arch.x86_64 import sse2_instructions as sse, instructions as xi
+    from ppci.arch.x86_64.registers import xmm4_single as XMM4
+
+    inst = sse.Cvtsi2ss(XMM4, xi.RmAbsLabel("lab"))
+    data, rels = emit_item(arch, inst)
+    st, out = _mini("x86_64", data.hex(), [(rels[0][0], rels[0][1], "lab", 0)], [("lab", None, None)],
+                    [("code", 0x1000)], extra={"lab": 0x11223344})
+    if st != "ok":
+        return "link raised %r" % (out,)
+    got = bytes(out.get_section("code").data)
+    want = data[:len(data) - 4] + (0x11223344).to_bytes(4, "little")
+    return None if got == want else "cvtsi2ss xmm4, [lab] (bytes %s, disp32 at offset %d) is relocated at offset " \
+                                    "%d: linked bytes %s" % (data.hex(), len(data) - 4, rels[0][1], got.hex())
+
+
+PROBES = {F_ADDEND: probe_addend, F_DUAL: probe_dual, F_NOCHECK: probe_nocheck, F_EXC: probe_exc,
+          F_EDGE: probe_edge, F_ODD: probe_odd, F_THUMBJ: probe_thumbj, F_MIPSREGION: probe_mips,
+          F_XTRANGE: probe_xtensa, F_SSE: probe_sse}
